@@ -70,9 +70,8 @@ ASSUMPTIONS = [
     "(what cubed.core.ops.blockwise guarantees before calling the primitive)",
     "only fusions admitted by the optimizer's own predicates are performed; a multi-output operation is never fused as a "
     "predecessor (the optimizer refuses it)",
-    "legacy simple_optimize_dag: a successor whose first key-function argument is a list/iterator while task counts are equal "
-    "is a recorded defect of the legacy optimizer (DESIGN section 4 #17, property C02) and is excluded from generation "
-    "(counted under excluded_by_known_finding)",
+    "legacy simple_optimize_dag with a successor whose first key-function argument is a list/iterator (formerly a defect, "
+    "repaired in /repo) is part of the generated domain",
     "real plans are compared at the level of key functions (which blocks, in which structure); values are C02's business",
 ]
 
@@ -945,8 +944,8 @@ def check_tree(case) -> Outcome:
         if len(set(node["ins"])) < len(node["ins"]):
             labels.add("p2:repeated-input")
     if mode == "legacy" and _legacy_region(tree, g):
-        labels.add("p2:legacy-excluded(defect-17-region)")
-        return Outcome(labels=tuple(sorted(labels)), excluded=1)
+        # formerly excluded (defect 17, fixed in /repo: fuse() defers to fuse_multiple for list/stream successors)
+        labels.add("p2:legacy-list-or-stream-successor")
     producers = {}
     for node in tree["nodes"]:
         for k, o in enumerate(node_outputs(node)):
@@ -1369,10 +1368,6 @@ def check_plan(case) -> Outcome:
             try:
                 t1 = e1.block(arr, co)
             except Exception as e:  # noqa
-                if opt == "legacy" and isinstance(e, AttributeError) and "has no attribute 'coords'" in str(e):
-                    # recorded defect of the legacy optimizer (iterator successor), see ASSUMPTIONS
-                    labels.add("p3:legacy-excluded(defect-17-region)")
-                    return Outcome(labels=tuple(sorted(labels)), excluded=1)
                 bad(f"key-function-exception:{type(e).__name__}", f"{arr}{co}: {e!r}")
                 break
             try:
